@@ -157,8 +157,13 @@ func c06GenHooks(rng *Rng, nHooks int, allowEvents bool) []*c06Hook {
 				if rng.Chance(40) {
 					b.queue = fmt.Sprintf("q%d", rng.Range(1, 3))
 				}
-				if allowEvents && h.v1 && b.group == 0 && b.queue != "" && rng.Chance(60) {
-					b.secret = true
+				if allowEvents && h.v1 && b.group == 0 {
+					// ungrouped bindings of other queues watch the Secrets created during the start (their
+					// Event tasks never enter the main queue, which keeps the startup log deterministic)
+					if b.queue == "" && rng.Chance(50) {
+						b.queue = fmt.Sprintf("q%d", rng.Range(1, 3))
+					}
+					b.secret = b.queue != ""
 				}
 				h.kube = append(h.kube, b)
 			}
@@ -423,22 +428,28 @@ func c06Run(r *Run, c *Case, rng *Rng, hooks []*c06Hook, events bool) {
 		q.DelayOnQueueIsEmpty = 5 * time.Millisecond
 		q.DelayOnRepeat = 2 * time.Millisecond
 	})
-	stopEvents := make(chan struct{})
 	eventsDone := make(chan struct{})
+	stopEvents := make(chan struct{})
 	go func() {
 		defer close(eventsDone)
 		if !events {
 			return
 		}
+		// Secrets appear while the main queue works through the startup tasks: the bindings that watch
+		// them get Events which must not overtake their Synchronization
 		erng := NewRng(rng.U64())
-		for i := 1; i <= 4; i++ {
+		for i := 1; i <= 40; i++ { // until the startup tasks are done
 			select {
 			case <-stopEvents:
 				return
-			case <-time.After(time.Duration(erng.Range(5, 120)) * time.Millisecond):
+			case <-time.After(time.Duration(erng.Range(10, 50)) * time.Millisecond):
 			}
 			func() {
-				defer func() { _ = recover() }()
+				defer func() {
+					if p := recover(); p != nil && os.Getenv("C06_DEBUG") != "" {
+						fmt.Fprintf(os.Stderr, "case %d: creating a Secret panicked: %v\n", c.Idx, p)
+					}
+				}()
 				fc.CreateSimpleNamespaced(ns, "Secret", fmt.Sprintf("ev%d", i))
 			}()
 		}
@@ -462,8 +473,13 @@ func c06Run(r *Run, c *Case, rng *Rng, hooks []*c06Hook, events bool) {
 		if hasSched {
 			time.Sleep(1100 * time.Millisecond) // let the every-second schedules fire once
 		} else if events {
-			time.Sleep(150 * time.Millisecond)
+			time.Sleep(300 * time.Millisecond)
 		}
+	}
+	if os.Getenv("C06_DEBUG") == "late" {
+		fc.CreateSimpleNamespaced(ns, "Secret", "late-secret")
+		fc.CreateSimpleNamespaced(ns, "ConfigMap", "late-cm")
+		time.Sleep(800 * time.Millisecond)
 	}
 	op.Shutdown()
 	cancel()
@@ -472,6 +488,13 @@ func c06Run(r *Run, c *Case, rng *Rng, hooks []*c06Hook, events bool) {
 		return
 	}
 	time.Sleep(30 * time.Millisecond)
+	if os.Getenv("C06_DEBUG") != "" {
+		b, _ := os.ReadFile(logPath)
+		fmt.Fprintf(os.Stderr, "case %d ns=%s\n%s\n", c.Idx, ns, string(b))
+		for _, h := range hooks {
+			fmt.Fprintf(os.Stderr, "  %s %s\n", h.path, h.config(ns))
+		}
+	}
 	execs, err := c06ParseLog(logPath, byPath)
 	if err != nil {
 		c.Op("run", "err "+err.Error())
@@ -659,7 +682,11 @@ func runC06(r *Run) {
 		c06Run(r, c, rng, hs, false)
 	})
 	n := r.N(48, 400)
-	r.Cases(100, n, 12, func(c *Case, rng *Rng) {
+	par := 5 // more parallel operators starve the informers: Events during startup become rare
+	if v, err := strconv.Atoi(os.Getenv("C06_PAR")); err == nil && v > 0 {
+		par = v
+	}
+	r.Cases(100, n, par, func(c *Case, rng *Rng) {
 		nh := rng.Range(1, 8)
 		if rng.Chance(35) {
 			nh = rng.Range(13, 25)
